@@ -301,6 +301,9 @@ func funcsOfType(p *core.Prog, pkg *ssa.Package, typ string) []*ssa.Function {
 		}
 		if root.Pkg == pkg && root.Signature.Recv() != nil && core.TypeName(root.Signature.Recv().Type()) == typ {
 			out = append(out, f)
+		} else if root.Pkg == pkg && root.Signature.Recv() == nil && root.Object() != nil && !root.Object().Exported() && len(root.Params) > 0 && core.TypeName(root.Params[0].Type()) == typ {
+			// an unexported helper taking the object as first argument counts as one of its methods
+			out = append(out, f)
 		}
 	}
 	return out
